@@ -11,7 +11,13 @@ use vh::*;
 
 fn run_case<T: Elem>(case: u64, args: &Args, ev: &mut Ev, log: &mut EventLog) {
     let mut rng = Rng::derive(args.seed, "C01", &[case]);
-    let (spec, lab) = gen_linear_case::<T>(&mut rng, &LinearOpts::default());
+    let (spec, lab) = gen_linear_case::<T>(
+        &mut rng,
+        &LinearOpts {
+            extreme_magnitudes: true,
+            ..Default::default()
+        },
+    );
     let x = spec.axis();
     let q = queries_in_range(&mut rng, &x, 8);
     let entry = rng.below(4);
